@@ -157,15 +157,31 @@ func (*BinaryBoolExprNode) GetType() NodeType {
 	return NodeTypeBool
 }
 
+// evalNullableBool evaluates a bool operand, preserving null for symbols whose value is not set
+func evalNullableBool(node BoolNode, s Symbols) *bool {
+	if symbolNode, ok := node.(SymbolNode); ok {
+		return s.EvalBool(symbolNode.Symbol())
+	}
+	result := node.EvalBool(s)
+	return &result
+}
+
 func (node *BinaryBoolExprNode) EvalBool(s Symbols) bool {
-	leftResult := node.left.EvalBool(s)
-	rightResult := node.right.EvalBool(s)
+	leftResult := evalNullableBool(node.left, s)
+	rightResult := evalNullableBool(node.right, s)
+
+	if leftResult == nil || rightResult == nil {
+		if node.op == BinaryOpNEQ {
+			return leftResult != rightResult
+		}
+		return false
+	}
 
 	switch node.op {
 	case BinaryOpEQ:
-		return leftResult == rightResult
+		return *leftResult == *rightResult
 	case BinaryOpNEQ:
-		return leftResult != rightResult
+		return *leftResult != *rightResult
 	}
 
 	pfxlog.Logger().Errorf("unhandled boolean binary expression type %v", node.op)
